@@ -270,6 +270,36 @@ static std::vector<Config> make_configs(bool T) {
             mk<RG, NoiseGate>([at, rt, zero] { return NoiseGate(8000, -12.0, at, rt, zero ? 0.0 : 0.0005); },
                               [](NoiseGate& c) { return HS(c.lg_, (uint64_t)c.cA_); }));
     }
+    // dynamics again with 16-sample granules: k granules span several release times, so a gain recovery sits inside the stream
+    add("Compressor(tc1,g16)", 1, 16, mk<RG, Compressor>([] { return Compressor(8000, -20.0, 4, 6.0, 0.0005, 0.002); }, [](Compressor& c) { return HS(c.gs_); }));
+    add("Compressor(hard,g16)", 1, 16, mk<RG, Compressor>([] { return Compressor(8000, -12.0, 8, 0.0, 0.0, 0.004); }, [](Compressor& c) { return HS(c.gs_); }));
+    add("Limiter(tc1,g16)", 1, 16, mk<RG, Limiter>([] { return Limiter(8000, -15.0, 4.0, 0.0, 0.002); }, [](Limiter& c) { return HS(c.gs_); }));
+    add("NoiseGate(tc1,g16)", 1, 16, mk<RG, NoiseGate>([] { return NoiseGate(8000, -12.0, 0.001, 0.002, 0.002); }, [](NoiseGate& c) { return HS(c.lg_, (uint64_t)c.cA_); }));
+    add("Agc(real,avg10,g16)", 1, 16, mk<RG, Agc>([] { return Agc(1.0, 40.0, 10, 0.05, 0.02); }, sfa));
+    // adaptive filters that are trained on a fixed sequence and then LOCKED: the locked filter is a streaming FIR
+    for (int len : {2, 5}) {
+        add(fmt("LMS<real>(%d,locked)", len), 2, 1, mk<AR, LmsFilterR>([=] {
+                LmsFilterR f(len, 0.05, LmsType::LMS, 0.999);
+                arr_real x(64), d(64);
+                for (int i = 0; i < 64; ++i) { x[i] = lcg_val(700, (uint64_t)i); d[i] = lcg_val(701, (uint64_t)i); }
+                f.process(x, d);
+                f.set_lock_coeffs(true);
+                return f; }, [](LmsFilterR& f) { return mix(HS(f._u), HS(f._w)); }));
+        add(fmt("NLMS<cmplx>(%d,locked)", len), 4, 1, mk<AC, LmsFilterC>([=] {
+                LmsFilterC f(len, 0.5, LmsType::NLMS, 0.99);
+                arr_cmplx x(64), d(64);
+                for (int i = 0; i < 64; ++i) { x[i] = cmplx_t(lcg_val(702, (uint64_t)i), lcg_val(703, (uint64_t)i)); d[i] = cmplx_t(lcg_val(704, (uint64_t)i), 0.5); }
+                f.process(x, d);
+                f.set_lock_coeffs(true);
+                return f; }, [](LmsFilterC& f) { return mix(HS(f._u), HS(f._w)); }));
+        add(fmt("RLS<real>(%d,locked)", len), 2, 1, mk<AR, RlsFilterR>([=] {
+                RlsFilterR f(len, 0.98, 10.0);
+                arr_real x(64), d(64);
+                for (int i = 0; i < 64; ++i) { x[i] = lcg_val(705, (uint64_t)i); d[i] = lcg_val(706, (uint64_t)i); }
+                f.process(x, d);
+                f.set_lock_coeffs(true);
+                return f; }, [](RlsFilterR& f) { return mix(HS(f._u), mix(HS(f._w), HS(f._p))); }));
+    }
     // ---- adaptive filters
     for (int len : {2, 4, 8}) {
         for (int nl = 0; nl < 2; ++nl) {
@@ -295,7 +325,8 @@ static double letter_val(int letter, int comp, long long i) {
     case 0: return lcg_val(600 + (uint64_t)comp, (uint64_t)i);                       // dense
     case 1: return (i % 5 == 2) ? (comp == 0 ? 1.0 : -0.5) : 0.0;                    // impulse train
     case 2: return (i >= 7) ? (comp % 2 == 0 ? 0.75 : 0.25) : 0.0;                   // step
-    default: return (i == 5 && comp % 2 == 0) ? 1e6 : 1e-3 * lcg_val(650 + (uint64_t)comp, (uint64_t)i);   // 180 dB click in low-level noise
+    case 3: return (i == 5 && comp % 2 == 0) ? 1e6 : 1e-3 * lcg_val(650 + (uint64_t)comp, (uint64_t)i);   // 180 dB click in low-level noise
+    default: return (i < 24) ? 0.9 * (i % 2 ? -1.0 : 1.0) : 0.05 * lcg_val(660 + (uint64_t)comp, (uint64_t)i);     // loud burst, then a quiet passage
     }
 }
 static std::vector<double> make_stream(const Config& c, int granules, int letter, int tagshift = 0) {
@@ -365,7 +396,7 @@ int main(int argc, char** argv) {
     for (size_t ci = 0; ci < C.size(); ++ci) {
         const Config& c = C[ci];
         const uint64_t chash = fnv(c.name);
-        for (int letter = 0; letter < 4; ++letter) {
+        for (int letter = 0; letter < 5; ++letter) {
             // ---------------- mode comp: all compositions of K1 granules
             if (ctx.take("frame.comp", P().kv("config", c.name).kv("letter", letter).kv("k", K1))) {
                 auto stream = make_stream(c, K1, letter);
